@@ -74,11 +74,11 @@ theorem Py.decScalar_nat_at (e : Endian) (p : Prim) (n : Nat) (data pre post : B
 
 theorem Py.decSizer_at (e : Endian) (p : Prim) (c sh : Nat) (data pre post : Bytes) (pos : Nat)
     (hd : data = pre ++ (scalarBytes e p.size (c + sh) ++ post)) (hp : pre.length = pos)
-    (hr : inRange p ((c + sh : Nat) : Int) = true) (hg : c + sh ≤ guardLimit) :
+    (hr : inRange p ((c + sh : Nat) : Int) = true) (hg : c ≤ guardLimit) :
     Py.decSizer e p sh data pos = .ok (c, p.size) := by
   unfold Py.decSizer
   rw [Py.decScalar_nat_at e p (c + sh) data pre post pos hd hp hr]
-  have hg' : ¬ (((c + sh : Nat) : Int) > (Py.arrayGuard : Int)) := by
+  have hg' : ¬ (((c + sh : Nat) : Int) - (sh : Int) > (Py.arrayGuard : Int)) := by
     unfold guardLimit at hg; unfold Py.arrayGuard; omega
   have hs' : ¬ (((c + sh : Nat) : Int) - (sh : Int) < 0) := by omega
   simp only [bind, Except.bind]
